@@ -129,6 +129,7 @@ def get_facts(cfg='default', repo=None, use_cache=True):
         lock_fh.close()
     f.cfg = cfg
     f.path = out
+    f.repo = repo
     _facts_memo[key] = f
     return f
 
